@@ -106,6 +106,10 @@ func TestC19Store(t *testing.T) {
 
 	rapid.Check(t, prop(r, func(t *rapid.T) {
 		base := drawColType(t, "base")
+		// (a hand-made type may have left the map of a kind of field it
+		// does not have unallocated; the property is about collections
+		// whose type has been set, so it always is)
+		base.NilMaps = rapid.Bool().Draw(t, "nilmaps")
 		typ := gen.SoftTypeOf(&base)
 		col := &jsonapi.SoftCollection{}
 		col.SetType(&typ)
